@@ -45,17 +45,18 @@ pub fn run(ctx: &Ctx) -> i32 {
     let shapes: Vec<(usize, usize)> = if ctx.tier == Tier::Thorough { vec![(2, 3), (3, 2), (1, 4), (4, 1), (3, 3), (2, 5), (5, 2)] } else { vec![(2, 3), (3, 2), (1, 4), (4, 1)] };
     // variant: 0 plain, 1 one linked cell, 2 one tilemap layer, 3 one hidden layer, 4 non-Normal blend, 5 hidden group parent,
     // 6 every layer at opacity 255 with cels fully inside the canvas and reduced cel opacity,
-    // 7 / 8 the lowest / highest layer hidden and a non-zero z-index in every cel chunk
+    // 7 / 8 the lowest / highest layer hidden and a non-zero z-index in every cel chunk,
+    // 9 / 10 an indexed sprite (transparent index in use) whose lowest layer is a hidden / visible background layer
     let mut cases = Vec::new();
     for (si, (nf, nl)) in shapes.iter().enumerate() {
         for m in 0..(1u32 << (nf * nl)) {
-            for variant in 0..9 {
+            for variant in 0..11 {
                 cases.push((si, m, variant));
             }
         }
     }
     let fam = "cells";
-    ctx.family(fam, cases.len() as u64, "shapes (frames,layers) in {(2,3),(3,2),(1,4),(4,1)} (thorough: + (3,3),(2,5),(5,2)): every subset of the F*L cells present, each with unique offset, pixels, opacity and user-data record; variants: plain / one linked cell / a tilemap layer / a hidden layer / a non-Normal blend mode / a hidden group parent / all layers at opacity 255 with in-canvas cels of reduced cel opacity / a non-zero z-index field in every cel chunk with the lowest or the highest layer hidden. Three routes must agree; single-visible-layer frames must equal the cel image; tilemap image must equal its cel image (checked directly on the library's outputs and against the model)", true);
+    ctx.family(fam, cases.len() as u64, "shapes (frames,layers) in {(2,3),(3,2),(1,4),(4,1)} (thorough: + (3,3),(2,5),(5,2)): every subset of the F*L cells present, each with unique offset, pixels, opacity and user-data record; variants: plain / one linked cell / a tilemap layer / a hidden layer / a non-Normal blend mode / a hidden group parent / all layers at opacity 255 with in-canvas cels of reduced cel opacity / a non-zero z-index field in every cel chunk with the lowest or the highest layer hidden / an indexed sprite with the transparent index in use whose lowest layer is a hidden or a visible background layer. Three routes must agree; single-visible-layer frames must equal the cel image; tilemap image must equal its cel image (checked directly on the library's outputs and against the model)", true);
     let fmt = Fmt::Rgba;
     cases.par_iter().for_each(|(si, m, variant)| {
         let case = || format!("shape={:?} present={:b} variant={}", shapes[*si], m, variant);
@@ -64,7 +65,12 @@ pub fn run(ctx: &Ctx) -> i32 {
         }
         let (nf, nl) = shapes[*si];
         let d: Vec<u16> = (0..nf as u16).map(|i| 30 + i).collect();
+        // variants 9 / 10: an indexed sprite whose lowest layer is a hidden / visible background layer
+        let fmt = if *variant >= 9 { Fmt::Indexed(0) } else { fmt.clone() };
         let mut f = gen::file(4, 3, &fmt, &d);
+        if *variant >= 9 {
+            f.frames[0].push(new_palette(0, pal_entries(6, 2)));
+        }
         let tm_layer = if *variant == 2 { Some(nl - 1) } else { None };
         if tm_layer.is_some() {
             f.frames[0].push(Body::Tileset(tileset(4, 4, 2, 1, tile_pixels(&fmt, 4, 2, 1, 3, (0, 0)), "ts")));
@@ -84,6 +90,12 @@ pub fn run(ctx: &Ctx) -> i32 {
             }
             if *variant == 8 && l + 1 == nl {
                 ly.flags = 2;
+            }
+            if *variant == 9 && l == 0 {
+                ly.flags = 2 | 8;
+            }
+            if *variant == 10 && l == 0 {
+                ly.flags = 1 | 8;
             }
             if *variant == 4 {
                 ly.blend = [1u16, 5, 13, 17][l % 4];
@@ -110,7 +122,7 @@ pub fn run(ctx: &Ctx) -> i32 {
                     if first_real.is_none() && *variant == 1 {
                         first_real = Some((fr, l));
                     }
-                    raw_cel(li, x, y, op, 2, 2, pixels(&fmt, 2, 2, uid + 1, (0, 0)))
+                    raw_cel(li, x, y, op, 2, 2, pixels(&fmt, 2, 2, uid + 1, (0, 5)))
                 };
                 let mut body = body;
                 if *variant >= 7 {
